@@ -152,7 +152,7 @@ def run(ctx):
 
     all_ids = BASE + rand_ids
     ggroups = groups(all_ids, lambda s: GEN_WEIGHT[(s - 101) % NSHAPES + 1 if s > 100 else s] * (3 if (s in (2,) and not q) else 1), 4 if q else 6)
-    mgroups = groups(mc_shapes, lambda s: MC_WEIGHT[s], 4 if q else 6)
+    mgroups = groups(mc_shapes, lambda s: MC_WEIGHT[s], 5 if q else 6)
     with cf.ThreadPoolExecutor(max_workers=16) as ex:
         fgen = [ex.submit(gen, g) for g in ggroups]
         fmc = [ex.submit(mc, ctx, "ValidateXPathMC.cfg", dict(mc_consts, Shapes=set_lit(g)), tmo) for g in mgroups]
